@@ -309,8 +309,8 @@ pub fn run(tier: Tier, seed: u64, only: Option<String>) -> i32 {
         "matching_round_attributed_at_capacity",
         "flow_statistics_of_attributed_rounds",
     ];
-    let n = tier.pick(400, 10_000);
-    let m = tier.pick(600, 20_000);
+    let n = tier.pick(3000, 40_000);
+    let m = tier.pick(5000, 80_000);
     match only {
         Some(s) if s.starts_with('s') => {
             let o = synthetic(seed, s[1..].parse().unwrap_or(0), tier);
